@@ -53,10 +53,14 @@ class HeapMixin:
         if type(obj).__name__ == "Bottom":
             return obj
         if isinstance(obj, SymOpt):
-            if ctx.branch(obj.is_none, f"isNone@{fr.line}"):
+            if not fr.spec and ctx.branch(obj.is_none, f"isNone@{fr.line}"):
                 raise mk_exc(AttributeError, f"'NoneType' object has no attribute '{attr}'", where=fr.where())
             obj = obj.value
         if obj is None:
+            if fr.spec:
+                from .interp import BOTTOM
+
+                return BOTTOM
             raise mk_exc(AttributeError, f"'NoneType' object has no attribute '{attr}'", where=fr.where())
         if isinstance(obj, SObj):
             cc0 = self.class_contract(obj)
@@ -73,8 +77,19 @@ class HeapMixin:
                         return v.value
                     obj.fields[attr] = UNSET
                     raise mk_exc(AttributeError, f"object has no attribute '{attr}'", where=fr.where())
+                if isinstance(v, SymOpt) and not fr.spec:
+                    # narrow Optional fields once the path condition decides them
+                    d = ctx.decided(v.is_none)
+                    if d is False:
+                        return v.value
+                    if d is True:
+                        return None
                 return v
             return self.class_attr(obj, attr, fr)
+        if not isinstance(obj, enum.Enum) and (isinstance(obj, (SymInt, SymBool, int, float)) and not isinstance(obj, bool) or isinstance(obj, (bool, SymBool))):
+            if attr in ("real", "imag", "numerator", "denominator", "bit_length", "to_bytes"):
+                raise Unsupported(f"int.{attr}")
+            raise mk_exc(AttributeError, f"'int' object has no attribute '{attr}'", where=fr.where())
         if isinstance(obj, VALUE_METHODS) or isinstance(obj, (SymOpaque, SymEnum)):
             if isinstance(obj, SymEnum) and attr == "value":
                 return mk_int(obj.e + 1)  # auto() numbering starts at 1
@@ -460,8 +475,8 @@ class HeapMixin:
         return default
 
     def any_subscript(self, v: SymAny, key, fr):
-        tag, val = ops.any_split(self.ctx, v, "subscript")
-        if tag in ("none", "bool", "int"):
+        tag, val = ops.any_split(self.ctx, v, "subscript", interesting=("str", "bytes", "seq", "other"))
+        if tag == "rest":
             raise mk_exc(TypeError, "not subscriptable", where=fr.where())
         if tag in ("str", "bytes"):
             if isinstance(val, SymBytes):
@@ -485,8 +500,8 @@ class HeapMixin:
         return a
 
     def any_unpack(self, v: SymAny, n, fr):
-        tag, val = ops.any_split(self.ctx, v, "unpack")
-        if tag in ("none", "bool", "int"):
+        tag, val = ops.any_split(self.ctx, v, "unpack", interesting=("str", "bytes", "seq", "other"))
+        if tag == "rest":
             raise mk_exc(TypeError, "cannot unpack", where=fr.where())
         if tag in ("str", "bytes"):
             if isinstance(val, SymBytes):
